@@ -17,7 +17,7 @@ res = {"patch": patch, "demo": demo}
 try:
     subprocess.run(["git", "-C", "/repo", "worktree", "add", "-q", "--detach", wt, "HEAD"], check=True)
     def run_demo():
-        return subprocess.run(["/venv/bin/python", demo], cwd=wt, capture_output=True, text=True, timeout=600).returncode
+        return subprocess.run(["/venv/bin/python", demo], cwd=wt, capture_output=True, text=True, timeout=600, env=dict(os.environ, PYTHONPATH=wt, PYTHONDONTWRITEBYTECODE="1")).returncode
     res["demo_clean_exit"] = run_demo()
     a = subprocess.run(["git", "-C", wt, "apply", patch], capture_output=True, text=True)
     res["applies"] = a.returncode == 0
